@@ -117,6 +117,19 @@ Theorem C13_grouped_buffer_exact :
 Proof. exact grouped_int2string_buf_exact. Qed.
 Print Assumptions C13_grouped_buffer_exact.
 
+(** The footprint text + NUL is also necessary: with a shorter buffer the
+    model reports the out-of-bounds store (so the two theorems above are not
+    satisfied by a model that ignores stores it cannot place). *)
+Theorem C13_buffer_needs_room :
+  forall bits sg pat sep buf,
+    is_width bits -> pat < 2 ^ bits ->
+    ((length buf <= length (sdec (to_Z bits sg pat)))%nat ->
+     int2string_buf bits sg buf pat = Fault OOBWrite) /\
+    ((length buf <= length (sgroup sep (to_Z bits sg pat)))%nat ->
+     grouped_int2string_buf bits sg buf pat sep = Fault OOBWrite).
+Proof. exact buffer_needs_room. Qed.
+Print Assumptions C13_buffer_needs_room.
+
 (** Converting the text back (stringTo<T>: std::stoi / stol / stoul and the
     conversion to T) yields the original value. *)
 Theorem C13_roundtrip :
